@@ -186,6 +186,53 @@ class Gen:
         return r
 
 
+def shared_form(g):
+    """directed family: the same non-leaf expression OBJECT used several times in one constraint, nested inside other operators to the
+    left and to the right of a bare use (f(A) + A, A + f(A), polynomials in A, two levels of sharing)"""
+    E, rng = g.E, g.rng
+    A = g.expr(1)
+    if isinstance(A, (int, float)) or A.is_leaf():
+        A = rng.choice(g.vars) * rng.choice(g.vars) + rng.choice(g.params)
+
+    def f(x):
+        k = rng.choice(["sq", "cube", "mul", "neg", "abs", "div", "pow"] + (["exp", "sin", "atan"] if g.transcend else []))
+        g.note("shared:" + k)
+        if k == "sq":
+            return x ** 2
+        if k == "cube":
+            return x ** 3
+        if k == "mul":
+            return x * rng.choice(g.vars)
+        if k == "neg":
+            return -x
+        if k == "abs":
+            return E.abs(x)
+        if k == "div":
+            return rng.choice(g.vars) / (E.abs(x) + 1.0)
+        if k == "pow":
+            return (E.abs(x) + 0.5) ** 1.852
+        if k == "exp":
+            return E.exp(x * 0.25)
+        return getattr(E, k)(x)
+    form = rng.randrange(7)
+    g.note("shared_form_%d" % form)
+    if form == 0:
+        return f(A) + A
+    if form == 1:
+        return A + f(A)
+    if form == 2:
+        return f(A) * A - f(A)
+    if form == 3:
+        c = [rng.choice([1.5, -2.0, 0.5, 3.0]) for _ in range(4)]
+        return c[3] * A ** 3 + c[2] * A ** 2 + c[1] * A + c[0]
+    if form == 4:
+        return f(f(A)) / (E.abs(A) + 1.0) + A
+    if form == 5:
+        B = f(A)
+        return f(B) + B * A
+    return f(A) - A * f(A) + A
+
+
 def safe_domain(E, expr, vals_override=None):
     """evaluate every operator node; reject points at / near the boundary of the domain of definition
     (where the property does not speak) and overflowing values."""
@@ -318,7 +365,7 @@ def check(run, replay=None):
                             c = E.inequality(body, lb=rng.choice([None, 0, -0.5]), ub=rng.choice([1.0, 2.5, None]))
                             if isinstance(c, bool):
                                 raise Skip("constant condition")
-                            e = g.expr(2)
+                            e = shared_form(g) if rng.random() < 0.3 else g.expr(2)
                             if isinstance(e, (int, float)) or e.is_leaf():
                                 e = e + rng.choice(g.vars) * 2
                             safe_domain(E, c)
@@ -333,7 +380,7 @@ def check(run, replay=None):
                         brs.append((None, e))
                         cons.append(("cond", aml.Constraint(ce), brs))
                     else:
-                        e = g.expr(rng.randint(2, 3))
+                        e = shared_form(g) if rng.random() < 0.35 else g.expr(rng.randint(2, 3))
                         if isinstance(e, (int, float)) or e.is_leaf():
                             continue
                         safe_domain(E, e)
